@@ -20,6 +20,11 @@ func runDump(args []string) int {
 	if !ok {
 		sp = &FuncSpec{Key: key, Loops: map[int]*LoopSpec{}, NoPanic: true}
 	}
+	for _, a := range args[1:] {
+		if a == "lockset" {
+			sp = &FuncSpec{Key: key, Loops: map[int]*LoopSpec{}, Lockset: true, Implicit: true}
+		}
+	}
 	w, err := LoadWorld(specs, []string{pkgOfKey(key, specs)})
 	if err != nil {
 		fmt.Println(err)
